@@ -16,6 +16,10 @@ pub assume_specification<T, E, F: FnOnce(T) -> bool>[Result::<T, E>::is_ok_and](
 pub assume_specification<T, E, F: FnOnce(E) -> T>[Result::<T, E>::unwrap_or_else](r: std::result::Result<T, E>, f: F) -> (out: T)
     requires r is Err ==> call_requires(f, (r->Err_0,)),
     ensures r is Ok ==> out == r->Ok_0, r is Err ==> call_ensures(f, (r->Err_0,), out);
+pub assume_specification<T, F: FnOnce(&T) -> bool>[Option::<T>::filter](o: Option<T>, f: F) -> (out: Option<T>)
+    requires o is Some ==> call_requires(f, (&o->Some_0,)),
+    ensures o is None ==> out is None, out is Some ==> out == o,
+        o is Some ==> (out is Some <==> call_ensures(f, (&o->Some_0,), true));
 pub assume_specification[u64::div_ceil](a: u64, b: u64) -> (out: u64)
     requires b > 0,
     ensures out as int == (if a % b == 0 { (a / b) as int } else { (a / b) as int + 1 });
